@@ -64,9 +64,13 @@ def pyRepr (pr : Char → Bool) (s : Str) : Str :=
   let q := reprQuote s
   q :: s.flatMap (reprChar pr q) ++ [q]
 
+/-- membership in a list of ascending, disjoint ranges -/
+def inRanges : List (Nat × Nat) → Nat → Bool
+  | [], _ => false
+  | (lo, hi) :: r, n => if n < lo then false else if n ≤ hi then true else inRanges r n
+
 /-- `str.isprintable` from the generated table (what the driver runs; theorems take any `pr`) -/
-def isPrintable (c : Char) : Bool :=
-  !(Gen.nonPrintable.any fun (lo, hi) => lo ≤ c.toNat && c.toNat ≤ hi)
+def isPrintable (c : Char) : Bool := !inRanges Gen.nonPrintable c.toNat
 
 /-! ### str.format over the template lines -/
 
